@@ -76,6 +76,32 @@ Proof.
 Qed.
 
 (* the channel capacities the argument depends on are those of the code *)
+(* the handler is never parked on a signalling channel: with no internal step possible it is
+   either not invoked, reading transactions, or through *)
+Theorem handler_parks_only_reading_always s : reachable next i0 s -> handler_parks_only_reading s = true.
+Proof.
+  apply (invariant_by_closure next R0 i0 handler_parks_only_reading R0_init R0_closed).
+  vm_compute. reflexivity.
+Qed.
+
+Theorem handler_parks_only_reading_prop s : reachable next i0 s -> tau_quiescent s = true ->
+  let h := hnd (decode s) in h = H0 \/ h = HProc \/ h = HDone.
+Proof.
+  intros Hr Hq. pose proof (handler_parks_only_reading_always s Hr) as Hp.
+  unfold handler_parks_only_reading in Hp. rewrite Hq in Hp. cbn [negb orb] in Hp.
+  apply orb_true_iff in Hp as [Hp|Hp]; [apply orb_true_iff in Hp as [Hp|Hp]|];
+    apply N.eqb_eq in Hp; cbv zeta; auto.
+Qed.
+
+(* ... so once its stream has ended (the handler has left HProc for good) it returns *)
+Theorem ended_handler_returns s : reachable next i0 s -> tau_quiescent s = true ->
+  hnd (decode s) = HSendC \/ hnd (decode s) = HDone -> hnd (decode s) = HDone.
+Proof.
+  intros Hr Hq [Hh|Hh]; [|exact Hh].
+  pose proof (handler_parks_only_reading_always s Hr) as Hp. unfold handler_parks_only_reading in Hp.
+  rewrite Hq, Hh in Hp. vm_compute in Hp. discriminate.
+Qed.
+
 Theorem capacities : capS = 2 /\ capC = 2.
 Proof. split; reflexivity. Qed.
 
